@@ -749,6 +749,20 @@ func (p *parsedStream) padded(n int) []byte {
 	return o
 }
 
+// extendedHeader re-emits the stream with n reserved bytes appended to the fixed header's content (the
+// reader accepts any content size from 2 to 1 MiB and skips what it does not know).
+func (p *parsedStream) extendedHeader(orig []byte, n int) []byte {
+	var o []byte
+	o = append(o, "STEF"...)
+	o = binary.AppendUvarint(o, uint64(len(p.hdr)+n))
+	o = append(o, p.hdr...)
+	for k := 0; k < n; k++ {
+		o = append(o, byte(0x5a+k))
+	}
+	o = append(o, orig[p.hdrEnd:]...)
+	return o
+}
+
 func (p *parsedStream) totalRecords() int {
 	n := 0
 	for _, f := range p.frames {
